@@ -278,11 +278,22 @@ def main() -> None:
         [["write", {"main.exps": main, "lib/lib.exps": lib, "lib/base.exps": 'import "../main.exps";\n' + base}], ["compile", "main.exps"],
          ["write", {"lib/base.exps": base}], ["compile", "main.exps"]],
     ]
+    # two scripts at different depths of the tree share an imported file: what one compilation learns about that file is
+    # no business of the next
+    shared = "macro shared_m() {\n    shared_op();\n}\n"
+    fh.append([["write", {"a/main.exps": 'import "../common/macros.exps";\ndef 0 {\n    ~shared_m();\n    end;\n}\n',
+                          "a/b/deep.exps": 'import "../../common/macros.exps";\ndef 0 {\n    ~shared_m();\n    ~shared_m();\n    end;\n}\n',
+                          "common/macros.exps": shared}],
+               ["compile", "a/main.exps"], ["compile", "a/b/deep.exps"], ["compile", "a/main.exps"],
+               ["write", {"common/macros.exps": shared.replace("shared_op", "changed_op")}], ["compile", "a/b/deep.exps"]])
     for steps, o in zip(fh, run_impl([("files:compile_files_history", st) for st in fh], chunksize=1)):
         run.case(["files-history", steps], nontrivial=True)
         if not o.get("ok"):
             run.fail("files-history-crash", f"history over files failed: {o}", {"steps": steps})
             continue
+        run.count("files-history frame condition:" + ("ok" if not o.get("residue") else "BROKEN"))
+        if o.get("residue") and frame_broken is None:
+            frame_broken = ("restores_obs", f"shared values differ from start-up after a history over files: {o['residue'][:5]}", steps)
         for n, (reused, fresh) in enumerate(o["results"]):
             run.count("files-history:" + ("ok" if reused == fresh else "DIFFERENT"))
             if reused != fresh:
